@@ -971,3 +971,484 @@ Proof.
   destruct (cfg_write_buffer_size cfg <? cfg_max_write_buffer_size cfg) eqn:E; split; intros H;
     try discriminate; try reflexivity; lia.
 Qed.
+
+Lemma run_op_wp_inv x o w res x' w' :
+  run_op x o w = (res, x', w') ->
+  wp_inv (c_out (x_codec x)) (w_log w) -> wp_inv (c_out (x_codec x')) (w_log w').
+Proof.
+  intros H Hi. destruct (is_setbuf o) eqn:Es.
+  - destruct o; try discriminate Es. rewrite run_op_setbuf in H.
+    destruct (wbs <? max); inv H; auto.
+  - destruct (run_op_pstep _ _ _ _ _ _ H Es) as [[[evs [El Ht]] _] _].
+    rewrite El. eapply wp_inv_step; eassumption.
+Qed.
+
+Lemma run_ops_wp_inv ops : forall x w rs x' w',
+  run_ops x ops w = (rs, x', w') ->
+  wp_inv (c_out (x_codec x)) (w_log w) -> wp_inv (c_out (x_codec x')) (w_log w').
+Proof.
+  induction ops as [|o ops IH]; intros x w rs x' w' H Ht; cbn [run_ops] in H.
+  - inv H. exact Ht.
+  - destruct (run_op x o w) as [[r1 x1] w1] eqn:E1.
+    destruct (run_ops x1 ops w1) as [[rs2 x2] w2] eqn:E2. inv H.
+    eapply IH; [exact E2|]. eapply run_op_wp_inv; eassumption.
+Qed.
+
+(* reachable states: from the constructor with an empty log, through any op list *)
+Lemma reach_tracked r part cfg x0 ops w0 rs x w :
+  ctx_new r part cfg = Some x0 -> w_log w0 = [] -> run_ops x0 ops w0 = (rs, x, w) -> tracked x w.
+Proof.
+  intros Hn Hl Hr. eapply run_ops_tracked; [exact Hr|].
+  apply ctx_new_spec in Hn. destruct Hn as [_ [Ho _]]. unfold tracked. rewrite Hl, Ho. reflexivity.
+Qed.
+
+Lemma reach_cfg_ok r part cfg x0 ops w0 rs x w :
+  ctx_new r part cfg = Some x0 -> run_ops x0 ops w0 = (rs, x, w) -> cfg_ok x.
+Proof.
+  intros Hn Hr. eapply run_ops_cfg_ok; [exact Hr|]. apply ctx_new_spec in Hn. tauto.
+Qed.
+
+(* ------------------------------------------------------------------------------------------ *)
+(** * 11. flush = Ok; zero-length writes *)
+
+Lemma flush_ok x w u x' w' :
+  flush x w = (ROk u, x', w') ->
+  c_out (x_codec x') = [] /\ x_unflushed x' = false /\
+  exists l, w_log w' = l ++ [EvFlush FlOk].
+Proof.
+  unfold flush. intros H.
+  destruct (write_ x None w) as [[r0 x0] w0] eqn:EW.
+  destruct r0 as [b|e|s|]; try discriminate H.
+  destruct (write_out_buffer (x_codec x0) w0) as [[r1 c1] w1] eqn:EO.
+  destruct r1 as [u1|e|s|]; try discriminate H.
+  destruct (w_flush w1) as [r2 w2] eqn:EF.
+  destruct r2 as [u2|e|s|]; try discriminate H. inv H.
+  apply write_out_buffer_spec in EO. destruct EO as [evs [_ [_ [_ [_ [Hr _]]]]]].
+  apply w_flush_spec in EF. destruct EF as [fr [El [_ Hf]]].
+  cbn [x_codec x_unflushed set_unflushed set_codec]. splits; auto.
+  - destruct Hr as [[_ Ho]|[k [Hx _]]]; [exact Ho|discriminate Hx].
+  - destruct Hf as [[_ ->]|[k [Hx _]]]; [|discriminate Hx]. exists (w_log w1). exact El.
+Qed.
+
+Lemma codec_eta c : set_out c (c_out c) = c.
+Proof. destruct c; reflexivity. Qed.
+
+Lemma ctx_eta_codec x : set_codec x (x_codec x) = x.
+Proof. destruct x; reflexivity. Qed.
+
+(* Ok(0) from the transport with data pending: one call, ConnectionReset, buffer intact *)
+Lemma write_out_zero c w n rest :
+  c_out c <> [] -> w_wrs w = WrAccept n :: rest -> n = 0 ->
+  write_out_buffer c w =
+  (RErr (EIo ConnReset), c,
+   mkWorld (w_rds w) rest (w_fls w) (w_keys w) (w_log w ++ [EvWrite (blen (c_out c)) []])).
+Proof.
+  intros Hne Hw ->. unfold write_out_buffer. rewrite Hw.
+  destruct (c_out c) as [|b o] eqn:Eo; [contradiction|].
+  cbn [write_out_loop]. replace (N.min 0 (blen (b :: o)) =? 0) with true by (symmetry; lia).
+  rewrite <- Eo, codec_eta. reflexivity.
+Qed.
+
+Lemma after_key_wrs r w : w_wrs (after_key r w) = w_wrs w.
+Proof. destruct r; [reflexivity|]. unfold after_key, w_next_key. destruct (w_keys w); reflexivity. Qed.
+
+(* flush with nothing pending, data in the buffer and a transport that accepts 0 bytes *)
+Lemma flush_zero_write x w rest :
+  x_additional x = None -> c_out (x_codec x) <> [] -> w_wrs w = WrAccept 0 :: rest ->
+  flush x w =
+  (RErr (EIo ConnReset), x,
+   mkWorld (w_rds w) rest (w_fls w) (w_keys w) (w_log w ++ [EvWrite (blen (c_out (x_codec x))) []])).
+Proof.
+  intros Ha Hne Hw. unfold flush, write_. cbv beta iota zeta. rewrite Ha. cbv beta iota. rewrite Ha.
+  destruct (role_eqb (x_role x) Server && closing_done (x_state x) && true) eqn:E;
+    cbv beta iota; rewrite (write_out_zero _ _ 0 rest Hne Hw eq_refl); cbv beta iota;
+    rewrite ctx_eta_codec; reflexivity.
+Qed.
+
+(* buffering a frame that triggers a transport write which accepts 0 bytes *)
+Lemma buffer_frame_zero_write x f w rest :
+  let f1 := sent_frame (x_role x) w f in
+  let c := x_codec x in
+  frame_len f1 + blen (c_out c) <= c_max_out c ->
+  c_write_len c < blen (c_out c) + frame_len f1 ->
+  w_wrs w = WrAccept 0 :: rest ->
+  exists x' w',
+    buffer_frame x f w =
+      (if closing_done (x_state x) then RErr EConnectionClosed else RErr (EIo ConnReset), x', w') /\
+    c_out (x_codec x') = c_out c ++ frame_format f1 /\
+    x_state x' = (if closing_done (x_state x) then Terminated else x_state x) /\
+    w_wrs w' = rest /\
+    w_log w' = w_log w ++ [EvQueue f1; EvWrite (blen (c_out c ++ frame_format f1)) []].
+Proof.
+  intros f1 c Hfit Htrig Hw. rewrite buffer_frame_unfold. fold f1. fold c.
+  unfold codec_buffer_frame.
+  replace (c_max_out c <? frame_len f1 + blen (c_out c)) with false by (symmetry; lia).
+  rewrite frame_format_into_buf_eq. cbn [c_out set_out c_write_len].
+  rewrite blen_app, <- frame_len_exact.
+  replace (c_write_len c <? blen (c_out c) + frame_len f1) with true by (symmetry; lia).
+  assert (Hne : c_out (set_out c (c_out c ++ frame_format f1)) <> []).
+  { cbn. intros Hn. apply app_eq_nil in Hn. destruct Hn as [_ Hn]. exact (frame_format_nonnil f1 Hn). }
+  assert (Hw' : w_wrs (w_emit (after_key (x_role x) w) (EvQueue f1)) = WrAccept 0 :: rest).
+  { cbn. rewrite after_key_wrs. exact Hw. }
+  rewrite (write_out_zero _ _ 0 rest Hne Hw' eq_refl).
+  cbn [check_connection_reset].
+  destruct (closing_done (x_state x)); eexists; eexists; (split; [reflexivity|]);
+    cbn [x_codec x_state set_state set_codec c_out set_out w_wrs w_log w_emit];
+    rewrite after_key_log, <- app_assoc, ?blen_app, <- ?frame_len_exact; splits; reflexivity.
+Qed.
+
+(* ------------------------------------------------------------------------------------------ *)
+(** * 12. a data write in the Active state, case by case *)
+
+Lemma head_wr (evs more : list event) :
+  evs <> [] -> Forall is_wr_ev evs -> exists e rest, evs ++ more = e :: rest /\ is_wr_ev e.
+Proof.
+  intros Hne Hf. destruct evs as [|e evs]; [contradiction|].
+  exists e, (evs ++ more). split; [reflexivity|]. now inversion Hf.
+Qed.
+
+Lemma closing_done_active_false s : s = Active -> closing_done s = false.
+Proof. intros ->. reflexivity. Qed.
+
+Lemma write__some_active x f w r x' w' :
+  x_state x = Active -> write_ x (Some f) w = (r, x', w') ->
+  let f1 := sent_frame (x_role x) w f in
+  let c := x_codec x in
+  (c_max_out c < frame_len f1 + blen (c_out c) /\ r = RErr (EWriteBufferFull f1) /\ x' = x /\
+   w' = after_key (x_role x) w)
+  \/
+  (frame_len f1 + blen (c_out c) <= c_max_out c /\
+   exists evs, w_log w' = w_log w ++ EvQueue f1 :: evs /\
+     x_state x' = Active /\ x_role x' = x_role x /\
+     ((exists b, r = ROk b /\ (b = true -> x_additional x' = None)) \/ (exists k, r = RErr (EIo k))) /\
+     (queued evs = [] \/
+      exists a a', x_additional x = Some a /\ content_eq a a' /\ queued evs = [a']) /\
+     (x_additional x = None -> queued evs = []) /\
+     (c_write_len c < blen (c_out c) + frame_len f1 -> exists e rest, evs = e :: rest /\ is_wr_ev e) /\
+     (blen (c_out c) + frame_len f1 <= c_write_len c -> x_additional x = None ->
+        evs = [] /\ r = ROk (x_unflushed x))).
+Proof.
+  intros Hact H f1 c. unfold write_ in H.
+  destruct (buffer_frame x f w) as [[r0 x0] w0] eqn:EB.
+  apply buffer_frame_spec in EB. fold f1 in EB. fold c in EB.
+  destruct EB as [[Hfull [-> [-> ->]]]|[Hfit [evs0 [El [Ht [Hw [Hb [Hx [Hr [Hne He]]]]]]]]]].
+  { left. inv H. splits; auto. }
+  right. split; [exact Hfit|].
+  assert (Hadd : x_additional x0 = x_additional x) by (rewrite Hx; reflexivity).
+  assert (Hunf : x_unflushed x0 = x_unflushed x) by (rewrite Hx; reflexivity).
+  assert (Hrole : x_role x0 = x_role x) by (rewrite Hx; reflexivity).
+  destruct Hr as [[-> [Hst _]]|[[k [-> [Hst _]]]|[_ [_ [Hcd _]]]]].
+  3:{ rewrite Hact in Hcd. discriminate Hcd. }
+  2:{ inv H. exists evs0. rewrite Hst. splits; auto.
+      - right. exists k. reflexivity.
+      - left. now apply queued_only_writes.
+      - intros _. now apply queued_only_writes.
+      - intros Hlt. rewrite <- (app_nil_r evs0). apply head_wr; auto.
+      - intros Hle _. destruct (He Hle) as [_ Hx0]. discriminate Hx0. }
+  rewrite Hact in Hst.
+  destruct (x_additional x0) as [a|] eqn:Ea.
+  - (* a pending automatic frame goes out after the data frame *)
+    destruct (buffer_frame (set_additional_raw x0 None) a w0) as [[rb xb] wb] eqn:EB2.
+    apply buffer_frame_spec in EB2.
+    cbn [x_role x_codec x_state set_additional_raw] in EB2.
+    destruct EB2 as [[Hfull2 [-> [-> ->]]]|[Hfit2 [evs1 [El1 [Ht1 [Hw1 [Hb1 [Hx1 [Hr1 [Hne1 He1]]]]]]]]]].
+    + (* no room for it: back into the slot *)
+      rewrite x_state_set_additional in H. cbn [x_state set_additional_raw] in H.
+      rewrite Hst in H. cbn [closing_done] in H. rewrite Bool.andb_false_r in H. cbn [andb] in H.
+      inv H. exists evs0. rewrite x_state_set_additional, x_role_set_additional.
+      cbn [x_state x_role set_additional_raw]. rewrite after_key_log. splits; auto.
+      * left. exists false. split; [reflexivity|discriminate].
+      * left. now apply queued_only_writes.
+      * intros _. now apply queued_only_writes.
+      * intros Hlt. rewrite <- (app_nil_r evs0). apply head_wr; auto.
+      * intros _ Hn. congruence.
+    + assert (Hroleb : x_role xb = x_role x) by (rewrite Hx1; cbn; exact Hrole).
+      assert (Haddb : x_additional xb = None) by (rewrite Hx1; reflexivity).
+      assert (Hq : queued (evs0 ++ EvQueue (sent_frame (x_role x0) w0 a) :: evs1) =
+                   [sent_frame (x_role x0) w0 a]).
+      { rewrite queued_app. cbn [queued]. rewrite !queued_only_writes by assumption. reflexivity. }
+      assert (Hlog : w_log wb = w_log w ++ EvQueue f1 :: evs0 ++ EvQueue (sent_frame (x_role x0) w0 a) :: evs1).
+      { rewrite El1, El, <- app_assoc. reflexivity. }
+      destruct Hr1 as [[-> [Hstb _]]|[[k [-> [Hstb _]]]|[_ [_ [Hcd _]]]]].
+      3:{ rewrite Hst in Hcd. discriminate Hcd. }
+      * rewrite Hstb in H. cbn [x_state set_additional_raw] in H. rewrite Hst in H.
+        cbn [closing_done] in H. rewrite Bool.andb_false_r in H. cbn [andb] in H. inv H.
+        eexists. split; [exact Hlog|]. rewrite Hstb. cbn [x_state set_additional_raw].
+        splits; auto.
+        -- left. exists true. split; [reflexivity|]. intros _. exact Haddb.
+        -- right. exists a, (sent_frame (x_role x0) w0 a). splits; auto.
+           apply sent_frame_content.
+        -- intros Hn. congruence.
+        -- intros Hlt. apply head_wr; auto.
+        -- intros _ Hn. congruence.
+      * inv H. eexists. split; [exact Hlog|]. rewrite Hstb. cbn [x_state set_additional_raw].
+        splits; auto.
+        -- right. exists k. reflexivity.
+        -- right. exists a, (sent_frame (x_role x0) w0 a). splits; auto.
+           apply sent_frame_content.
+        -- intros Hn. congruence.
+        -- intros Hlt. apply head_wr; auto.
+        -- intros _ Hn. congruence.
+  - rewrite Hst in H. cbn [closing_done] in H. rewrite Bool.andb_false_r in H. cbn [andb] in H.
+    inv H. exists evs0. splits; auto.
+    + left. eexists. split; [reflexivity|]. intros _. exact Ea.
+    + left. now apply queued_only_writes.
+    + intros _. now apply queued_only_writes.
+    + intros Hlt. rewrite <- (app_nil_r evs0). apply head_wr; auto.
+    + intros Hle _. destruct (He Hle) as [-> _]. split; [reflexivity|]. now rewrite Hunf.
+Qed.
+
+Lemma queued_only_transport (evs : list event) : Forall is_transport_wr_ev evs -> queued evs = [].
+Proof.
+  induction 1 as [|e evs He _ IH]; [reflexivity|].
+  destruct e; cbn in He; try contradiction; cbn [queued]; exact IH.
+Qed.
+
+Lemma wr_ev_transport e : is_wr_ev e -> is_transport_wr_ev e.
+Proof. destruct e; cbn; auto. Qed.
+
+Lemma flush_none_active x w r x' w' :
+  x_additional x = None -> x_state x = Active -> flush x w = (r, x', w') ->
+  exists evs, w_log w' = w_log w ++ evs /\ Forall is_transport_wr_ev evs /\
+    (r = ROk tt \/ exists k, r = RErr (EIo k)).
+Proof.
+  intros Ha Hs H. unfold flush, write_ in H. cbv beta iota zeta in H. rewrite Ha in H.
+  cbv beta iota in H. rewrite Hs in H. cbn [closing_done] in H. rewrite Bool.andb_false_r in H.
+  cbn [andb] in H. cbv beta iota in H.
+  destruct (write_out_buffer (x_codec x) w) as [[r1 c1] w1] eqn:EO.
+  apply write_out_buffer_spec in EO. destruct EO as [evs [El [_ [Hw [_ [Hr _]]]]]].
+  assert (Hw' : Forall is_transport_wr_ev evs).
+  { eapply Forall_impl; [|exact Hw]. exact wr_ev_transport. }
+  destruct Hr as [[-> _]|[k [-> _]]].
+  - destruct (w_flush w1) as [r2 w2] eqn:EF. apply w_flush_spec in EF.
+    destruct EF as [fr [El2 [_ Hf]]].
+    exists (evs ++ [EvFlush fr]). rewrite app_assoc, <- El.
+    assert (Hall : Forall is_transport_wr_ev (evs ++ [EvFlush fr])).
+    { apply Forall_app. split; [exact Hw'|]. repeat constructor. }
+    destruct Hf as [[-> _]|[k [-> _]]]; inv H; splits; auto. right. exists k. reflexivity.
+  - inv H. exists evs. splits; auto. right. exists k. reflexivity.
+Qed.
+
+(* the `data` closure of WebSocketContext::write *)
+Definition write_data (x : ctx) (f : frame) (w : world) : res unit * ctx * world :=
+  let '(r, x1, w1) := write_ x (Some f) w in
+  match r with
+  | ROk true => flush x1 w1
+  | ROk false => (ROk tt, x1, w1)
+  | RErr e => (RErr e, x1, w1)
+  | RPanic s => (RPanic s, x1, w1)
+  | ROutOfFuel => (ROutOfFuel, x1, w1)
+  end.
+
+(* the frame a data message is turned into (None: Pong and Close go through the additional slot) *)
+Definition data_frame (m : message) : option frame :=
+  match m with
+  | MText d => Some (frame_message d (OData Text) true)
+  | MBinary d => Some (frame_message d (OData Binary) true)
+  | MPing d => Some (frame_ping d)
+  | MFrame f => Some f
+  | MPong _ | MClose _ => None
+  end.
+
+Lemma write_data_eq x m f w :
+  data_frame m = Some f ->
+  write x m w =
+  if is_terminated (x_state x) then (RErr EAlreadyClosed, x, w)
+  else if negb (is_active (x_state x)) then (RErr (EProtocol SendAfterClosing), x, w)
+  else write_data x f w.
+Proof. intros H. destruct m; inv H; reflexivity. Qed.
+
+Lemma write_data_spec x f w r x' w' :
+  x_state x = Active -> write_data x f w = (r, x', w') ->
+  let f1 := sent_frame (x_role x) w f in
+  let c := x_codec x in
+  (c_max_out c < frame_len f1 + blen (c_out c) /\ r = RErr (EWriteBufferFull f1) /\ x' = x /\
+   w' = after_key (x_role x) w)
+  \/
+  (frame_len f1 + blen (c_out c) <= c_max_out c /\
+   (r = ROk tt \/ exists k, r = RErr (EIo k)) /\
+   exists evs, w_log w' = w_log w ++ EvQueue f1 :: evs /\
+     (queued evs = [] \/
+      exists a a', x_additional x = Some a /\ content_eq a a' /\ queued evs = [a']) /\
+     (x_additional x = None -> queued evs = []) /\
+     (c_write_len c < blen (c_out c) + frame_len f1 -> exists e rest, evs = e :: rest /\ is_wr_ev e) /\
+     (blen (c_out c) + frame_len f1 <= c_write_len c -> x_additional x = None ->
+      x_unflushed x = false -> evs = [] /\ r = ROk tt)).
+Proof.
+  intros Hact H f1 c. unfold write_data in H.
+  destruct (write_ x (Some f) w) as [[r1 x1] w1] eqn:EW.
+  apply (write__some_active _ _ _ _ _ _ Hact) in EW. fold f1 in EW. fold c in EW.
+  destruct EW as [[Hfull [-> [-> ->]]]|[Hfit [evs [El [Hst [Hrole [Hr [Hq [Hqn [Hhd Hbt]]]]]]]]]].
+  { left. inv H. splits; auto. }
+  right. split; [exact Hfit|].
+  destruct Hr as [[b [-> Hb]]|[k ->]].
+  2:{ inv H. split; [right; exists k; reflexivity|]. exists evs. splits; auto.
+      intros Hle Hn _. destruct (Hbt Hle Hn) as [_ Hx]. discriminate Hx. }
+  destruct b.
+  - apply (flush_none_active _ _ _ _ _ (Hb eq_refl) Hst) in H.
+    destruct H as [evs2 [El2 [Hw2 Hr2]]]. split; [exact Hr2|].
+    exists (evs ++ evs2). rewrite El2, El, <- app_assoc. cbn [app].
+    pose proof (queued_only_transport _ Hw2) as Hq2.
+    splits; auto.
+    + rewrite queued_app, Hq2, app_nil_r. exact Hq.
+    + intros Hn. rewrite queued_app, Hq2, app_nil_r. auto.
+    + intros Hlt. destruct (Hhd Hlt) as [e [rest [-> He]]]. exists e, (rest ++ evs2). split; auto.
+    + intros Hle Hn Hu. destruct (Hbt Hle Hn) as [_ Hx]. rewrite Hu in Hx. discriminate Hx.
+  - inv H. split; [left; reflexivity|]. exists evs. splits; auto.
+    intros Hle Hn Hu. destruct (Hbt Hle Hn) as [-> _]. auto.
+Qed.
+
+(* ------------------------------------------------------------------------------------------ *)
+(** * 13. property-level statements (C10) *)
+
+Lemma c10_inv r part cfg x0 ops w0 rs x w :
+  ctx_new r part cfg = Some x0 -> w_log w0 = [] -> run_ops x0 ops w0 = (rs, x, w) ->
+  wire (w_log w) ++ c_out (x_codec x) = concat (map frame_format (queued (w_log w))).
+Proof. intros Hn Hl Hr. apply tracked_inv. eapply reach_tracked; eassumption. Qed.
+
+(* the invariant is inductive: from any state that satisfies it, through any op list *)
+Lemma c10_inv_preserved x ops w rs x' w' :
+  run_ops x ops w = (rs, x', w') ->
+  wire (w_log w) ++ c_out (x_codec x) = concat (map frame_format (queued (w_log w))) ->
+  wire (w_log w') ++ c_out (x_codec x') = concat (map frame_format (queued (w_log w'))).
+Proof. intros H Hi. exact (run_ops_wp_inv _ _ _ _ _ _ H Hi). Qed.
+
+Lemma c10_prefix r part cfg x0 ops w0 rs x w :
+  ctx_new r part cfg = Some x0 -> w_log w0 = [] -> run_ops x0 ops w0 = (rs, x, w) ->
+  exists unsent, concat (map frame_format (queued (w_log w))) = wire (w_log w) ++ unsent.
+Proof. intros Hn Hl Hr. exists (c_out (x_codec x)). symmetry. eapply c10_inv; eassumption. Qed.
+
+(* at every instant, also in the middle of a call: cut the log anywhere *)
+Lemma c10_prefix_always r part cfg x0 ops w0 rs x w l1 l2 :
+  ctx_new r part cfg = Some x0 -> w_log w0 = [] -> run_ops x0 ops w0 = (rs, x, w) ->
+  w_log w = l1 ++ l2 ->
+  exists unsent, concat (map frame_format (queued l1)) = wire l1 ++ unsent.
+Proof.
+  intros Hn Hl Hr Hs. pose proof (reach_tracked _ _ _ _ _ _ _ _ _ Hn Hl Hr) as Ht.
+  unfold tracked in Ht. rewrite Hs in Ht. apply tracks_prefix in Ht.
+  destruct Ht as [o1 [Ht _]]. exists o1. symmetry. apply tracked_inv. exact Ht.
+Qed.
+
+(* every transport write was offered exactly the unsent bytes, and what it accepted (any k of the
+   n offered) is their first k bytes *)
+Lemma c10_write_events r part cfg x0 ops w0 rs x w l1 off acc l2 :
+  ctx_new r part cfg = Some x0 -> w_log w0 = [] -> run_ops x0 ops w0 = (rs, x, w) ->
+  w_log w = l1 ++ EvWrite off acc :: l2 ->
+  exists unsent rest,
+    wire l1 ++ unsent = concat (map frame_format (queued l1)) /\
+    off = blen unsent /\ unsent = acc ++ rest.
+Proof.
+  intros Hn Hl Hr Hs. pose proof (reach_tracked _ _ _ _ _ _ _ _ _ Hn Hl Hr) as Ht.
+  unfold tracked in Ht. rewrite Hs in Ht. apply tracks_prefix in Ht.
+  destruct Ht as [o1 [Ht1 Ht2]]. cbn [tracks] in Ht2. destruct Ht2 as [Ho [rest [Hr2 _]]].
+  exists o1, rest. splits; auto. apply tracked_inv. exact Ht1.
+Qed.
+
+Lemma c10_accept x m f w r x' w' :
+  data_frame m = Some f -> write x m w = (r, x', w') ->
+  let f1 := sent_frame (x_role x) w f in
+  match r with
+  | ROk _ | RErr (EIo _) =>
+      exists evs, w_log w' = w_log w ++ EvQueue f1 :: evs /\
+        (queued evs = [] \/
+         exists a a', x_additional x = Some a /\ content_eq a a' /\ queued evs = [a'])
+  | RErr (EWriteBufferFull f') => f' = f1 /\ x' = x /\ w_log w' = w_log w
+  | RErr (EProtocol SendAfterClosing) =>
+      x_state x <> Active /\ x_state x <> Terminated /\ x' = x /\ w' = w
+  | RErr EAlreadyClosed => x_state x = Terminated /\ x' = x /\ w' = w
+  | _ => False
+  end.
+Proof.
+  intros Hd H f1. rewrite (write_data_eq _ _ _ _ Hd) in H.
+  destruct (x_state x) eqn:Es; cbn [is_terminated is_active negb] in H;
+    try (inv H; splits; auto; discriminate).
+  apply write_data_spec in H; [|exact Es]. fold f1 in H.
+  destruct H as [[_ [-> [-> ->]]]|[_ [Hr [evs [El [Hq _]]]]]].
+  - splits; auto. apply after_key_log.
+  - destruct Hr as [->|[k ->]]; exists evs; auto.
+Qed.
+
+(* in terms of the queued ghost list *)
+Lemma c10_accept_queued x m f w r x' w' :
+  data_frame m = Some f -> write x m w = (r, x', w') ->
+  let f1 := sent_frame (x_role x) w f in
+  match r with
+  | ROk _ | RErr (EIo _) =>
+      exists auto, queued (w_log w') = queued (w_log w) ++ f1 :: auto /\
+        (auto = [] \/ exists a a', x_additional x = Some a /\ content_eq a a' /\ auto = [a'])
+  | _ => queued (w_log w') = queued (w_log w)
+  end.
+Proof.
+  intros Hd H f1. pose proof (c10_accept _ _ _ _ _ _ _ Hd H) as A. cbv zeta in A. fold f1 in A.
+  destruct r as [u|e|s|]; try contradiction.
+  - destruct A as [evs [El Hq]]. exists (queued evs). rewrite El, queued_app. split; [reflexivity|].
+    destruct Hq as [->|[a [a' [Ha [Hc ->]]]]]; [left; reflexivity|right; exists a, a'; auto].
+  - destruct e; try contradiction.
+    + destruct A as [_ [-> ->]]. reflexivity.
+    + destruct A as [evs [El Hq]]. exists (queued evs). rewrite El, queued_app. split; [reflexivity|].
+      destruct Hq as [->|[a [a' [Ha [Hc ->]]]]]; [left; reflexivity|right; exists a, a'; auto].
+    + destruct p; try contradiction. destruct A as [_ [_ [-> ->]]]. reflexivity.
+    + destruct A as [_ [_ ->]]. reflexivity.
+Qed.
+
+Lemma c10_flush x w u x' w' :
+  wire (w_log w) ++ c_out (x_codec x) = concat (map frame_format (queued (w_log w))) ->
+  flush x w = (ROk u, x', w') ->
+  c_out (x_codec x') = [] /\
+  wire (w_log w') = concat (map frame_format (queued (w_log w'))) /\
+  exists l, w_log w' = l ++ [EvFlush FlOk].
+Proof.
+  intros Hi H. pose proof (flush_pstep _ _ _ _ _ H) as [[[evs [El Ht]] _] _].
+  apply flush_ok in H. destruct H as [Ho [_ Hl]]. splits; auto.
+  pose proof (wp_inv_step _ _ _ _ Hi Ht) as Hi'. unfold wp_inv in Hi'.
+  rewrite <- El, Ho, app_nil_r in Hi'. exact Hi'.
+Qed.
+
+Lemma pstep_log_ext x w x' w' : pstep x w x' w' -> exists evs, w_log w' = w_log w ++ evs.
+Proof. intros [[[evs [El _]] _] _]. exists evs. exact El. Qed.
+
+Lemma run_op_log_ext x o w res x' w' :
+  run_op x o w = (res, x', w') -> exists evs, w_log w' = w_log w ++ evs.
+Proof.
+  intros H. destruct (is_setbuf o) eqn:Es.
+  - destruct o; try discriminate Es. rewrite run_op_setbuf in H. exists [].
+    destruct (wbs <? max); inv H; now rewrite app_nil_r.
+  - eapply pstep_log_ext. eapply run_op_pstep; eassumption.
+Qed.
+
+Lemma run_ops_log_ext ops : forall x w rs x' w',
+  run_ops x ops w = (rs, x', w') -> exists evs, w_log w' = w_log w ++ evs.
+Proof.
+  induction ops as [|o ops IH]; intros x w rs x' w' H; cbn [run_ops] in H.
+  - inv H. exists []. now rewrite app_nil_r.
+  - destruct (run_op x o w) as [[r1 x1] w1] eqn:E1.
+    destruct (run_ops x1 ops w1) as [[rs2 x2] w2] eqn:E2. inv H.
+    apply run_op_log_ext in E1. apply IH in E2. destruct E1 as [e1 L1]. destruct E2 as [e2 L2].
+    exists (e1 ++ e2). rewrite L2, L1. now rewrite app_assoc.
+Qed.
+
+(* a data message whose write reported a transport error is queued, and once a later flush
+   succeeds its encoding is on the wire, right after everything queued before it *)
+Lemma c10_retry x m f w k x1 w1 ops rs x2 w2 u x3 w3 :
+  wire (w_log w) ++ c_out (x_codec x) = concat (map frame_format (queued (w_log w))) ->
+  data_frame m = Some f ->
+  write x m w = (RErr (EIo k), x1, w1) ->
+  run_ops x1 ops w1 = (rs, x2, w2) ->
+  flush x2 w2 = (ROk u, x3, w3) ->
+  exists later,
+    wire (w_log w3) =
+    concat (map frame_format (queued (w_log w))) ++ frame_format (sent_frame (x_role x) w f) ++ later.
+Proof.
+  intros Hi Hd Hw Hops Hf.
+  pose proof (c10_accept_queued _ _ _ _ _ _ _ Hd Hw) as A. cbv zeta in A.
+  destruct A as [auto [Hq _]].
+  pose proof (write_pstep _ _ _ _ _ _ Hw) as [[[e1 [El1 Ht1]] _] _].
+  pose proof (wp_inv_step _ _ _ _ Hi Ht1) as Hi1. rewrite <- El1 in Hi1.
+  pose proof (run_ops_wp_inv _ _ _ _ _ _ Hops Hi1) as Hi2.
+  destruct (c10_flush _ _ _ _ _ Hi2 Hf) as [_ [Hwire _]].
+  apply run_ops_log_ext in Hops. destruct Hops as [e2 Hl2].
+  apply flush_pstep, pstep_log_ext in Hf. destruct Hf as [e3 Hl3].
+  rewrite Hwire, Hl3, Hl2, !queued_app, Hq.
+  rewrite <- !app_assoc. cbn [app]. rewrite !map_app, !concat_app. cbn [map concat].
+  rewrite <- ?app_assoc. eexists. reflexivity.
+Qed.
